@@ -198,21 +198,22 @@ Theorem checker_mismatch_fails_call :
   (forall (e : exn) (cl : bool) (w : option (list Z)) (fp : list Z -> list Z), exists e', wrapper (Err e) cl w fp = Err e').
 Proof. exact (conj wrapper_accepts (conj wrapper_mismatch wrapper_failed_handshake)). Qed.
 
-(* FULL statement "whenever a call made with a Checker returns, the peer chain has the expected fingerprint"
-   including resumed connections: FALSE of the faithful model and of the code (finding F-C05-4) -- a resumed
-   connection skips the Checker unless checkResumedSession=True, and a server restores the client chain from a
-   ticket it sent before the Checker rejected that very chain.  Proved part: non-resumed connections or
-   checkResumedSession=True; missing hypothesis: resumed = false \/ check_resumed = true. *)
-Theorem checker_mismatch_fails_call_resumed_refuted :
-  exists s c w, wrapper_r (Ok s) false (Some w) (fun x => x) true false = Ok s /\
-                s_client_chain s = Some c /\ c <> w.
-Proof. exact wrapper_r_bypass_witness. Qed.
-
-Theorem checker_mismatch_fails_call_resumed_partial : forall hs cl w fp resumed chk s,
-  (resumed = false \/ chk = true) ->
-  wrapper_r hs cl (Some w) fp resumed chk = Ok s ->
-  hs = Ok s /\ exists c, (if cl then s_server_chain s else s_client_chain s) = Some c /\ fp c = w.
-Proof. exact wrapper_r_checked. Qed.
+(* Checker and RESUMED connections.  On the SERVER side every call made with a Checker that returns has a peer
+   chain with the expected fingerprint, resumed or not (the identity restored from a ticket is checked again);
+   on the CLIENT side the checkResumedSession semantics are kept: the same holds for non-resumed connections or
+   checkResumedSession=True, and a resumed connection with checkResumedSession=False (the default) is NOT
+   re-checked (third conjunct; the client checked that session object when it created it).
+   History: before /repo 3463378 the server skipped resumed connections as well;
+   checker_mismatch_fails_call_resumed_refuted held with witness session_w3 (finding F-C05-4: the ticket is sent
+   before the Checker rejects the chain) and only the _partial form (resumed = false \/ chk = true) was provable. *)
+Theorem checker_mismatch_fails_call_resumed :
+  (forall hs cl w fp resumed chk s,
+     (cl = false \/ resumed = false \/ chk = true) ->
+     wrapper_r hs cl (Some w) fp resumed chk = Ok s ->
+     hs = Ok s /\ exists c, (if cl then s_server_chain s else s_client_chain s) = Some c /\ fp c = w) /\
+  wrapper_r (Ok session_w3) false (Some [21]) (fun x => x) true false = Err (OtherExn X_AuthenticationError) /\
+  (forall hs w fp, wrapper_r hs true w fp true false = map_exn hs).
+Proof. exact (conj wrapper_r_checked (conj wrapper_r_former_witness_rejected wrapper_r_client_skips)). Qed.
 
 (* F12: the server's own `scheme` (read at tlsconnection.py 3305) influences the check of a
    client brainpool CertificateVerify only through SignatureScheme.getHash failing *)
